@@ -18,14 +18,15 @@ THEOREMS = [
     'Pysmi.Compile.C10_needStep',
     'Pysmi.Compile.C10_gen_calls',
     'Pysmi.Searcher.C10_anyfile_exact',
+    'Pysmi.Searcher.C10_pyfile_exact',
     'Pysmi.Searcher.C10_pyfile_exact_partial',
     'Pysmi.Searcher.C10_rebuild_files',
     'Pysmi.Searcher.C10_stub',
     'Pysmi.Searcher.C10_pyfile_pyc',
-    'Pysmi.Searcher.C10_stale_pyc_decides',
+    'Pysmi.Searcher.C10_stale_pyc_passed_over',
 ]
 TECHNIQUE = 'Lean 4 theorems about a model of MibCompiler.compile over abstract component oracles; differential correspondence (status map + full call trace) against the real compile() driven by scripted doubles; oracle search'
-LEVEL_TEXT = ("Compile level, proved in Lean for every searcher list and answer assignment: searchers asked in order up to and including the first fresh answer (every other answer moves on); a parsed module is untouched and removed from generation iff some searcher says fresh or noDeps excludes it; the generator is called exactly once per remaining module. Run level (C10_fresh_untouched): a parsed module with no failure recorded against its name that some searcher reports up to date ends untouched and is never handed to the writer, whatever every other module, answer and option. The file searchers' own decision is modelled (Model/Searcher.lean) and proved exact for every directory content, extension list, mtime and rebuild setting (AnyFileSearcher fully; PyFileSearcher: by the source suffixes when no byte-code file with a usable header sits beside the module, otherwise by the timestamp inside the first such file - C10_pyfile_pyc; the flags-word defect F18 is repaired); stub lists are not overridden by rebuild. Tied to the real searchers on scratch directories (all mtime orderings around equality, same-named directories, other extensions, bad / good / hash-based / cut-off .pyc headers, one searcher instance reused while the directory changes).")
+LEVEL_TEXT = ("Compile level, proved in Lean for every searcher list and answer assignment: searchers asked in order up to and including the first fresh answer (every other answer moves on); a parsed module is untouched and removed from generation iff some searcher says fresh or noDeps excludes it; the generator is called exactly once per remaining module. Run level (C10_fresh_untouched): a parsed module with no failure recorded against its name that some searcher reports up to date ends untouched and is never handed to the writer, whatever every other module, answer and option. The file searchers' own decision is modelled (Model/Searcher.lean) and proved exact for every directory content, extension list, mtime and rebuild setting (AnyFileSearcher and, since the byte-code loop was repaired, PyFileSearcher fully - C10_pyfile_exact: up to date exactly when some byte-code file carries a timestamp not older than the MIB or some source file is not older; a stale .pyc no longer hides a fresh .py; the flags-word defect F18 is repaired); stub lists are not overridden by rebuild. Tied to the real searchers on scratch directories (all mtime orderings around equality, same-named directories, other extensions, bad / good / hash-based / cut-off .pyc headers, one searcher instance reused while the directory changes).")
 LEVEL_NOTE = ('Trusted: Lean kernel + standard axioms; the hand-written model of compile() (Model/Compile.lean), tied to '
               '/repo by the correspondence on every run; component doubles stand for readers/parser/generators/searchers/'
               'borrowers/writer (their real behaviour is the subject of other properties).')
@@ -67,6 +68,65 @@ def set_entry(d, name, ent, magic):
         else:
             f.write(b'x')
     os.utime(p, (t, t))
+
+
+def package_searcher_failures():
+    """PyPackageSearcher on packages of the shapes Python knows - a regular package, a namespace package (a directory
+    without __init__.py: __file__ is None) and a package inside a zip archive on sys.path with a byte-code file carrying a
+    PEP 552 header: the answer is one of the searcher's answers, never another exception, and a fresh module is fresh"""
+    import importlib
+    import os
+    import shutil
+    import struct
+    import sys
+    import zipfile
+    from common import scratch_dir
+    from pysmi import error
+    from pysmi.searcher.pypackage import PyPackageSearcher
+    from pysmi.searcher.pyfile import PY_MAGIC_NUMBER
+    base = scratch_dir()
+    fails = []
+    SRC = 1500000000
+
+    def ask(pkg, name):
+        try:
+            PyPackageSearcher(pkg).fileExists(name, SRC)
+            return 'returns'
+        except error.PySmiFileNotModifiedError:
+            return 'nm'
+        except error.PySmiError:
+            return 'nf'
+        except BaseException as e:
+            return 'raises:' + type(e).__name__
+    try:
+        reg, ns = os.path.join(base, 'vregpkg'), os.path.join(base, 'vnspkg')
+        os.makedirs(reg)
+        os.makedirs(ns)
+        open(os.path.join(reg, '__init__.py'), 'w').close()
+        for d in (reg, ns):
+            p = os.path.join(d, 'X-MIB.py')
+            open(p, 'w').write('# compiled\n')
+            os.utime(p, (SRC + 10, SRC + 10))
+        zp = os.path.join(base, 'vzipped.zip')
+        with zipfile.ZipFile(zp, 'w') as z:
+            z.writestr('vzippkg/__init__.py', '')
+            z.writestr(zipfile.ZipInfo('vzippkg/X-MIB.py', (2030, 1, 1, 0, 0, 0)), '# compiled\n')
+            z.writestr('vzippkg/X-MIB.pyc', PY_MAGIC_NUMBER + struct.pack('<L', 0) + struct.pack('<L', SRC + 10) + struct.pack('<L', 11) + b'x')
+        sys.path[:0] = [base, zp]
+        importlib.invalidate_caches()
+        try:
+            for pkg, want in (('vregpkg', ('nm',)), ('vnspkg', ('nm', 'nf')), ('vzippkg', ('nm',))):
+                got = ask(pkg, 'X-MIB')
+                if got not in want:
+                    fails.append({'key': 'package-searcher', 'what': 'PyPackageSearcher(%s) holding an up-to-date X-MIB answered %s (expected %s)' % (
+                        pkg, got, ' or '.join(want)), 'input': {'package_searcher': pkg}})
+        finally:
+            del sys.path[:2]
+            for m in ('vregpkg', 'vnspkg', 'vzippkg'):
+                sys.modules.pop(m, None)
+    finally:
+        shutil.rmtree(base, ignore_errors=True)
+    return fails
 
 
 def real_searchers(ctx):
@@ -136,11 +196,9 @@ def real_searchers(ctx):
                 got = ask(pys, 'X-MIB', SRC, rebuild)
                 good_pyc = isinstance(ents['.pyc'], list) and isinstance(ents['.pyc'][2], int)
                 py_fresh = isinstance(ents['.py'], list) and ents['.py'][1] >= SRC
-                if good_pyc:
-                    # the timestamp inside a byte-code file decides; a stale one beside a fresh source is left undecided
-                    fresh = True if ents['.pyc'][2] >= SRC else (None if py_fresh else False)
-                else:
-                    fresh = py_fresh
+                # up to date: a byte-code file whose embedded timestamp is not older, or a source file that is not older; a stale
+                # byte-code file beside a fresh source file does not make the module stale
+                fresh = (good_pyc and ents['.pyc'][2] >= SRC) or py_fresh
                 # for the model a byte-code file without a usable timestamp is one without a good header
                 ments = {k: ([v[0], v[1], None] if isinstance(v, list) and isinstance(v[2], str) else v) for k, v in ents.items()}
                 reqs.append({'op': 'searcher', 'kind': 'py', 'mtime': SRC, 'rebuild': rebuild,
@@ -156,6 +214,9 @@ def real_searchers(ctx):
                 metas.append((('stub', name, {}, rebuild), got, name in ('A-MIB', 'B-MIB')))
     finally:
         shutil.rmtree(base, ignore_errors=True)
+    res.case(('package-searcher',), True)
+    res.count('package-searcher-shapes', 3)
+    res.oracle_failures.extend(package_searcher_failures())
     for case, got, fresh in metas:
         res.case(case, True)
         res.count('real-searcher:' + case[0])
@@ -186,6 +247,9 @@ def replay(payload):
     inp = payload.get('input', {})
     if 'pyc_layout' in inp:
         return replay_pyc(inp['pyc_layout'])
+    if 'package_searcher' in inp:
+        bad = [f for f in package_searcher_failures() if f['input']['package_searcher'] == inp['package_searcher']]
+        return {'fails': bool(bad), 'what': [b['what'] for b in bad]}
     if 'searcher' in inp:
         import common
         class C:
